@@ -54,6 +54,7 @@ class Agent:
         self.form = form
         self.log = []  # parsed requests
         self.raw_log = []  # (request datagram, response datagram)
+        self.resp_log = []  # response fields as sent (after fault hooks), one per answered request
         self.kwargs_log = []
         self.value_of = dict(self.db)
 
@@ -144,6 +145,7 @@ class Agent:
             out = {"version": msg["version"], "community": msg["community"], **r}
             if self.hook:
                 out = self.hook(self, msg, out) or out
+            self.resp_log.append(out)
             pdu = B.enc_pdu(out["tag"], out["request_id"], out["a"], out["b"], out["varbinds"], self.form)
             return B.enc_community_msg(out["version"], out["community"], pdu, self.form)
         return self.respond_v3(data, msg)
@@ -226,6 +228,7 @@ class Agent:
         out = {"version": 3, "msg_id": msg["msg_id"], "flags": want_flags, "user": msg["user"], "context_engine_id": scoped["context_engine_id"], "context_name": scoped["context_name"], **r}
         if self.hook:
             out = self.hook(self, msg, out) or out
+        self.resp_log.append(out)
         return self.build_v3_response(out, user)
 
     def build_v3_response(self, out, user, boots=None, time_=None):
